@@ -105,14 +105,17 @@ CLAIMED = {
             "maximal length, complete, <= 20 bits) and the lengths assign_codes() produces for frequency vectors of every "
             "alphabet size, incl. vectors that force the 20-bit limit.",
             "Sampled inputs; per-table counts from the inspector's own decoding.", "DESIGN.md 3 (C20)"),
-    "C16": ("fault_enumeration", "TLC model of the per-operand system-call sequence with one fault (Crash.tla) + every model behaviour replayed at every concrete call position of the real binary (LD_PRELOAD injection)",
+    "C16": ("fault_enumeration", "TLC model of the per-operand system-call sequence with one fault (Crash.tla) + every model behaviour replayed at every concrete call position of the real binary (LD_PRELOAD injection) + TLC trace validation of the main thread's recorded path (TraceCrash.tla)",
             "Crash.tla: for -k and not -k, every step x {call failure, SIGINT, SIGTERM, SIGKILL} is explored; TLC checks the "
             "A/B dichotomy, that status 0/4 implies a complete output, and that SIGKILL never leaves the input gone without a "
             "complete output.  Every model behaviour is replayed at every open/read/write/fchown/fchmod/futimens/close/unlink "
             "call position of compress / decompress runs of the real binary; files, exit status / signal and diagnostic must "
-            "be one of the outcomes the model allows for that injection.",
-            "Exhaustive over the call positions of the four scenario runs (2 modes x -k); faults are injected at the libc "
-            "boundary; -f is not modelled here (C17).", "DESIGN.md 3 (C16)"),
+            "be one of the outcomes the model allows for that injection (faults: call failure, failing write with SIGPIPE / SIGXFSZ, "
+            "SIGINT / SIGTERM before and after every call, SIGKILL; also on a damaged input, where cleanup() must remove the "
+            "partial output).  The path each run records (cli / sti window with the actual signal mask, halt, cleanup, "
+            "terminate, bailout) is validated against TraceCrash.tla together with the end state the driver observed.",
+            "Exhaustive over the call positions of the six scenario runs (compress, decompress, damaged input; each with "
+            "and without -k); faults are injected at the libc boundary; -f is not modelled here (C17).", "DESIGN.md 3 (C16), 11"),
     "C17": ("model_checking", "TLC enumeration of operand scenarios with the documented outcome (FileOps.tla) replayed against the real binary in scratch directories",
             "FileOps.tla gives, for every combination of mode, options {k,c,t,f}, operand kind (regular, hard link, symlink, "
             "directory, fifo, missing), suffix, pre-existing output and permission class, the outcome: skipped with warning, "
